@@ -269,11 +269,12 @@ impl Host {
         at
     }
 
-    /// a route of the interface expires at an instant in (a, b]
+    /// a route of the interface stops being valid between the instants a and b
     fn route_expires_within(&mut self, a: Micros, b: Micros) -> bool {
         let mut hit = false;
         self.iface.v.routes_mut().update(|v| {
-            hit = v.iter().any(|r| r.expires_at.map_or(false, |e| e.total_micros() > a && e.total_micros() <= b));
+            // a route is in use while now <= expires_at: it drops out between a and b iff a <= e < b
+            hit = v.iter().any(|r| r.expires_at.map_or(false, |e| e.total_micros() >= a && e.total_micros() < b));
         });
         hit
     }
